@@ -4,8 +4,9 @@
    [perm_ml] is the permanent (Laplace expansion; its algebraic laws and
    Fock-space unitarity are in Proofs/PermP.v, FockUnitP.v, added below as they
    are completed). *)
-From Coq Require Import ZArith List Bool Arith Lia.
-From LW Require Import Base.Sx Base.Num Base.Sums Base.Mat Model.State Model.Fock Proofs.StateP Proofs.SimP.
+From Coq Require Import ZArith List Bool Arith Lia Reals.
+From LW Require Import Base.Sx Base.Num Base.Sums Base.Mat Base.RInst Model.State Model.Fock Proofs.StateP Proofs.SimP
+     Proofs.PermP Proofs.FockUnitP Proofs.DistP.
 Import ListNotations.
 Open Scope nat_scope.
 
@@ -64,6 +65,42 @@ Proof.
                              (fun '(conj a b) => fock_sums_complete N n s H a b)).
 Qed.
 Print Assumptions C03_fock_basis_exact.
+
+(* the executable permanent [perm_ml] (Laplace expansion along the first column) is the textbook
+   permanent: the sum over all permutations sigma of [0,n) of prod_k M[sigma k, k] with
+   M[a,b] = U (nth a xs) (nth b ys); [arrs n (seq 0 n)] lists every permutation of [0,n) exactly
+   once (PermP.arrs_perm, arrs_nodup, arrs_length); any commutative ring *)
+Theorem C03_perm_is_permanent :
+  forall (R : Type) (r : ops R) (SR : StarRing r) (U : @mat R) xs ys n,
+    length xs = n -> length ys = n ->
+    perm_ml r U xs ys =
+    suml r (arrs n (seq 0 n))
+         (fun sigma => @prod2 R r (fun a b => U (nth a xs 0) (nth b ys 0)) sigma (seq 0 n)).
+Proof. exact (fun R r SR => @perm_is_permanent R r SR). Qed.
+Print Assumptions C03_perm_is_permanent.
+
+(* lossless herald-free circuit (U unitary of dimension N > 0): the amplitudes from one input to all
+   outputs of the same photon number form a unit vector — for every input, every mode count, every
+   photon number.  prob_of rops U ins outs = |perm_ml U[outs|ins]|^2 / (prod ins! * prod outs!) *)
+Theorem C03_lossless_amplitudes_unit_vector :
+  forall N (U : @mat C) ins,
+    0 < N -> unitary cops N U -> length ins = N ->
+    suml rops (fock_sums N (osum ins)) (fun outs => prob_of rops U ins outs) = 1%R.
+Proof. exact fock_unitarity. Qed.
+Print Assumptions C03_lossless_amplitudes_unit_vector.
+
+(* the same through Simulator.simulate(input, outputs=None): the returned row has one entry
+   (permanent, factor) per basis state and the |permanent|^2 / factor sum to one *)
+Theorem C03_simulate_row_is_unit_vector :
+  forall N (U : @mat C) i outs rows,
+    0 < N -> unitary cops N U ->
+    simulate rops N 0 U [] [] N [i] None = Ok (outs, rows) ->
+    exists row, rows = [row] /\ length row = length outs /\ suml rops row amp_prob = 1%R.
+Proof. exact simulate_unit_vector. Qed.
+Print Assumptions C03_simulate_row_is_unit_vector.
+
+Example C03_unit_vector_hypotheses_nonvacuous : unitary cops 3 (mid cops) /\ 0 < 3.
+Proof. split; [exact (unitary_mid 3)|lia]. Qed.
 
 Example C03_valid_state_nonvacuous : valid_state 3 [2; 0; 1]%Z.
 Proof. split; [reflexivity|repeat constructor; lia]. Qed.
